@@ -3,7 +3,7 @@
 # (offline, from the wheelhouse).  Idempotent.
 set -e
 cd "$(dirname "$0")"
-V=/verif/.venv
+V="$(pwd)/.venv"
 if [ ! -x $V/bin/python ] || ! $V/bin/python -c 'import z3, lxml, space_packet_parser' 2>/dev/null; then
   rm -rf $V
   /venv/bin/python -m venv $V
